@@ -194,8 +194,13 @@ class ModuleEnv:
         if isinstance(f, ast.Attribute):
             src_ = ast.unparse(f)
             if src_ in eng.c.get('calls', {}) and not isinstance(f.value, ast.Name):
-                # a call model stated for this exact receiver expression (e.g. self._loaded.sum): the receiver itself need not be modelled
-                return self.apply_contract(src_, node, eng, st, contract=eng.c['calls'][src_])
+                # a call model stated for this exact receiver expression (e.g. self._loaded.sum): the receiver itself need not be modelled;
+                # when it is (a record), the model may refer to it as `recv_`
+                try:
+                    base_ = eng.ev(f.value, st)
+                except (Unsupported, SpecError):
+                    base_ = None
+                return self.apply_contract(src_, node, eng, st, contract=eng.c['calls'][src_], recv=base_ if isinstance(base_, VRec) else None)
             # cls.method / self.method / Class.method -> contract
             if isinstance(f.value, ast.Name) and f.value.id in ('cls', 'self') and f.value.id in st.env:
                 key = f'{eng.cls_name}.{f.attr}'
@@ -302,7 +307,7 @@ class ModuleEnv:
         local = eng.c.get('calls', {})
         src = ast.unparse(node.func)
         if src in local:      # a call model stated in the contract under verification takes precedence over registry contracts
-            return self.apply_contract(src, node, eng, st, contract=local[src], args=args)
+            return self.apply_contract(src, node, eng, st, contract=local[src], args=args, recv=base if isinstance(base, VRec) else None)
         if key and key in self.reg:
             return self.apply_contract(key, node, eng, st, recv=base if isinstance(base, VRec) else None, args=args)
         if isinstance(base, VUnknown) or (isinstance(base, VConst) and isinstance(base.py, tuple)):
@@ -346,6 +351,12 @@ class ModuleEnv:
             v = self.len_model(a, eng, st)
             if v is not None:
                 return v
+            if isinstance(a, VU) and a.sort == 'elem':
+                # an opaque object: its length is an uninterpreted non-negative function of the object
+                from .sorts import ELEM
+                ln = z3.Function('len_elem', ELEM, z3.IntSort())(a.t)
+                st.pc.append(ln >= 0)
+                return VInt(ln)
             if isinstance(a, VUnknown):
                 return VUnknown('len(unknown)')
             raise Unsupported(f'len of {a!r}')
@@ -538,7 +549,7 @@ class ModuleEnv:
             rs0 = c.get('result')
             return fresh_value(parse_sort(rs0), 'loose') if rs0 and rs0 != 'none' else VUnknown(f'{key}: ill-typed argument')
         if recv is not None:
-            bind['self'] = recv
+            bind['recv_' if contract is not None else 'self'] = recv      # a local call model sees the object the method was called on as `recv_`
         gh = eng.c.get('call_ghosts', {}).get(key, {})
         for gname, gsort in c.get('ghost_params', {}).items():
             if gname in gh:
